@@ -35,8 +35,8 @@ DocMut ==   \* <<field, op, class>>
     <<"uri", "toNumber", "reject">>, <<"uri", "delete", "nopanic">>, <<"uri", "badString", "nopanic">>,
     \* inside the (optional) bounding box
     <<"boundingBox.crs", "delete", "nopanic">>, <<"boundingBox.crs", "null", "nopanic">>, <<"boundingBox.crs", "toNumber", "reject">>,
-    <<"boundingBox.lowerLeft", "delete", "nopanic">>, <<"boundingBox.lowerLeft", "arrayLong", "nopanic">>,
-    <<"boundingBox.lowerLeft", "arrayShort", "nopanic">>, <<"boundingBox.upperRight", "toString", "reject">>,
+    <<"boundingBox.lowerLeft", "delete", "nopanic">>, <<"boundingBox.lowerLeft", "arrayLong", "reject">>,
+    <<"boundingBox.lowerLeft", "arrayShort", "reject">>, <<"boundingBox.upperRight", "toString", "reject">>,
     <<"boundingBox.upperRight", "elemString", "reject">>, <<"boundingBox.orderedAxes", "toNumber", "reject">> }
 TmMut ==
   { <<"id", "delete", "reject">>, <<"id", "toNumber", "reject">>, <<"id", "idAlpha", "reject">>, <<"id", "idFloat", "reject">>,
@@ -45,7 +45,7 @@ TmMut ==
     <<"scaleDenominator", "zero", "nopanic">>, <<"scaleDenominator", "negative", "nopanic">>,
     <<"scaleDenominator", "sameAsPrev", "nopanic">>, <<"cellSize", "sameAsPrev", "nopanic">>,      \* two matrices tie in a value
     <<"pointOfOrigin", "delete", "reject">>, <<"pointOfOrigin", "toString", "reject">>, <<"pointOfOrigin", "toNumber", "reject">>,
-    <<"pointOfOrigin", "elemString", "reject">>, <<"pointOfOrigin", "arrayLong", "nopanic">>, <<"pointOfOrigin", "arrayShort", "nopanic">>,
+    <<"pointOfOrigin", "elemString", "reject">>, <<"pointOfOrigin", "arrayLong", "reject">>, <<"pointOfOrigin", "arrayShort", "reject">>,
     <<"cornerOfOrigin", "toNumber", "reject">>, <<"cornerOfOrigin", "badString", "nopanic">>, <<"cornerOfOrigin", "delete", "nopanic">> }
   \cup UNION {{ <<s, "delete", "reject">>, <<s, "toString", "reject">>, <<s, "zero", "reject">>, <<s, "negative", "reject">>,
                 <<s, "fraction", "nopanic">> } : s \in Sizes}
